@@ -1,6 +1,6 @@
 (* C05 -- children(), parent() and parents() describe the real process tree.
    Statements only; proofs live in C05/Lib.v, C05/Proofs.v, C05/ProofsSpec.v, C05/ProofsParent.v,
-   C05/ProofsVanish.v.
+   C05/ProofsVanish.v, C05/ProofsClock.v.
    Model: C05/Model.v (transcription of psutil/__init__.py children/parent/parents/
    ppid and _pslinux.ppid_map; [as_is] = the code as it is now, [before_fixes] = the
    code before the repairs 6afb079 / 3959fba / e202d3b / 671469c, [before_nsp_fix] = the code
@@ -11,7 +11,7 @@
    Process(ppid) / before parent.create_time()); goneb = ancestors vanishing after parents()
    appended them; o = the caller object;
    fuel = number of loop iterations allowed (None = exhausted = no termination). *)
-From PV Require Import C05.Spec C05.Lib C05.Proofs C05.ProofsSpec C05.ProofsParent C05.ProofsVanish.
+From PV Require Import C05.Spec C05.Lib C05.Proofs C05.ProofsSpec C05.ProofsParent C05.ProofsVanish C05.ProofsClock.
 
 (* children(): exactly the listed processes naming the caller as parent, never the
    caller itself, still there and not started before it, in listing order *)
@@ -208,3 +208,68 @@ Theorem C05_parents_vanish_old_refuted :
     parents as_is (S (length t)) t [] goneb None o = Val (Some [5]).
 Proof. exact parents_vanish_refuted. Qed.
 Print Assumptions C05_parents_vanish_old_refuted.
+
+(* ---------------------------------------------------------------- the clock
+   create_time() = start ticks + boot offset (btime * CLK, through the module cache BOOT_TIME).
+   [clock_obj pid ident k0 evs] = the caller after a history [evs] of clock steps (SetBtime),
+   psutil.boot_time() calls and create_time() calls, started with the clock state k0. *)
+
+(* the code as it is: as long as psutil.boot_time() is not called, steps of btime change
+   nothing -- the caller is "alive" in the sense of all theorems above, which therefore
+   apply unchanged (cached create_time() and fresh reads share the BOOT_TIME cache) *)
+Theorem C05_clock_no_refresh : forall t pid ident k0 evs, ~ In CallBootTime evs ->
+  alive_b t (clock_obj pid ident k0 evs) = live_b t (clock_obj pid ident k0 evs).
+Proof. exact clock_no_refresh. Qed.
+Print Assumptions C05_clock_no_refresh.
+
+(* known finding: create_time() cached, clock stepped by +100 s, psutil.boot_time() called:
+   children() of the live caller 5 reports PID 12 that started before it, parent() is None;
+   with the proposed repair (age tests on start times since boot) both are right *)
+Theorem C05_clock_refuted :
+  exists t k0 evs, let o := clock_obj 5 3000 k0 evs in
+    wf_table t = true /\ live_b t o = true /\
+    spec_children t [] 5 3000 = [9] /\ children_direct as_is t [] o = Val [9; 12] /\
+    spec_parent_v t [] 5 3000 = Some (1, 100) /\ parent as_is t [] None o = Val None /\
+    children_direct with_mono t [] o = Val [9] /\ parent with_mono t [] None o = Val (Some (1, 100)).
+Proof. exact clock_refuted. Qed.
+Print Assumptions C05_clock_refuted.
+
+(* with that repair: the four answers are invariant under EVERY clock history (any steps of
+   btime, any boot_time() calls, any earlier create_time() calls, any initial clock state) *)
+Theorem C05_btime_invariance : forall fx, fx_mono fx = true ->
+  forall t gone goneb cache fuel pid ident k0 evs k0' evs',
+    let o := clock_obj pid ident k0 evs in
+    let o' := clock_obj pid ident k0' evs' in
+    children_direct fx t gone o = children_direct fx t gone o' /\
+    children_rec fx fuel t gone o = children_rec fx fuel t gone o' /\
+    parent fx t gone cache o = parent fx t gone cache o' /\
+    parents fx fuel t gone goneb cache o = parents fx fuel t gone goneb cache o'.
+Proof. exact btime_invariance. Qed.
+Print Assumptions C05_btime_invariance.
+
+(* ... and they are the demanded ones (computed from start ticks only) for every live caller,
+   whatever its create_time() cache holds *)
+Theorem C05_children_direct_mono : forall t gone o, wf_table t = true -> live_b t o = true ->
+  children_direct with_mono t gone o = Val (spec_children t gone (o_pid o) (o_ident o)).
+Proof. exact (children_direct_mono with_mono eq_refl eq_refl). Qed.
+Print Assumptions C05_children_direct_mono.
+
+Theorem C05_children_rec_mono : forall t gone o, wf_table t = true -> live_b t o = true ->
+  exists l, children_rec with_mono (S (length t)) t gone o = Val (Some l) /\ NoDup l /\
+            forall q, In q l <-> (desc t gone (o_pid o) (o_ident o) q /\ q <> o_pid o).
+Proof. exact (children_rec_mono with_mono eq_refl eq_refl). Qed.
+Print Assumptions C05_children_rec_mono.
+
+Theorem C05_parent_mono : forall t gone cache o, wf_table t = true -> live_b t o = true ->
+  cache_fresh_b t cache = true ->
+  parent with_mono t gone cache o = Val (spec_parent_v t gone (o_pid o) (o_ident o)).
+Proof. exact (parent_mono with_mono eq_refl). Qed.
+Print Assumptions C05_parent_mono.
+
+Theorem C05_parents_mono : forall t gone goneb cache o,
+  wf_table t = true -> live_b t o = true -> cache_fresh_b t cache = true ->
+  (exists l, parents with_mono (S (length t)) t gone goneb cache o = Val (Some l)) /\
+  (forall l fuel, memz (o_pid o) goneb = false -> chain_v t gone goneb (o_pid o) l -> (length l <= fuel)%nat ->
+                  parents with_mono fuel t gone goneb cache o = Val (Some l)).
+Proof. intros t gone goneb cache o. exact (parents_mono with_mono eq_refl t gone goneb cache o eq_refl eq_refl). Qed.
+Print Assumptions C05_parents_mono.
